@@ -36,6 +36,20 @@ const POOL: &[(&str, &str)] = &[
     ("Ralt", "/ab|c/"),
     ("Ralt2", "/(b|abc)/"),
     ("Rany", "/[a-c1]/"),
+    // more of the same alphabet: enough terminals for states that expect more than twenty of them
+    ("Saa", "'aa'"),
+    ("Sba", "'ba'"),
+    ("Scb", "'cb'"),
+    ("S11", "'11'"),
+    ("Sb1", "'b1'"),
+    ("Sbca", "'bca'"),
+    ("Rasb", "/a*b/"),
+    ("Rbcp", "/[bc]+/"),
+    ("Rabcq", "/a[bc]?/"),
+    ("Raorbc", "/(a|b)c/"),
+    ("R1p", "/1+/"),
+    ("Rab1p", "/[ab1]+/"),
+    ("Rcq1", "/c?1/"),
 ];
 
 #[derive(Clone, Debug)]
@@ -101,7 +115,19 @@ impl LexG {
 }
 
 pub fn gen_lex(rng: &mut Rng) -> LexG {
-    let n = rng.range(2, 6);
+    gen_lex_n(rng, 2, 6)
+}
+
+/// Wide variant: one state expects more than twenty terminals, declared in random (not key-sorted) order.
+pub fn gen_lex_wide(rng: &mut Rng) -> LexG {
+    let mut g = gen_lex_n(rng, 21, POOL.len());
+    g.family = 0;
+    g.split = 0;
+    g
+}
+
+fn gen_lex_n(rng: &mut Rng, lo: usize, hi: usize) -> LexG {
+    let n = rng.range(lo, hi);
     let mut idx: Vec<usize> = (0..POOL.len()).collect();
     rng.shuffle(&mut idx);
     let mut terms = vec![];
@@ -436,9 +462,35 @@ pub fn main(a: &Args) {
     }
     let (n, maxlen) = if a.thorough { (a.n.unwrap_or(400), 6) } else { (a.n.unwrap_or(40), 5) };
     let mut rng = a.rng(6);
+    if a.shard == 0 {
+        // the most-specific rule must never outrank a priority, however long the string recogniser is
+        for len in [999usize, 1000, 1001, 2500] {
+            let q = "q".repeat(len);
+            let g = LexG { terms: vec![LTerm { name: "Lq".into(), rec: Rec::Lit(q.clone()), prio: 10 }, LTerm { name: "Rq".into(), rec: Rec::Re("q+".into()), prio: 11 }, LTerm { name: "Rqb".into(), rec: Rec::Re("[qb]+".into()), prio: 5 }], family: 0, split: 0 };
+            for (ms, lm) in [(true, true), (true, false), (false, true)] {
+                let spec = SetSpec { ms, lm, ..Default::default() };
+                run_case(&g, &spec, &wd, &mut rep, &[q.clone(), format!("{} b", q), format!("{}q", q), "qq".into()]);
+            }
+            rep.count("long_string_recogniser_cases", 1);
+        }
+    }
     let mut i = 0;
     while i < n && rep.elapsed() < a.max_s {
         i += 1;
+        if i % 5 == 0 {
+            let g = gen_lex_wide(&mut rng);
+            let inputs = all_inputs(&alphabet(&g), maxlen.min(5));
+            rep.count("wide_family_grammars", 1);
+            rep.max("max_terminals", g.terms.len() as u64);
+            for _ in 0..2 {
+                let spec = SetSpec { glr: false, ms: rng.chance(0.5), lm: rng.chance(0.5), ..Default::default() };
+                run_case(&g, &spec, &wd, &mut rep, &inputs);
+            }
+            // GLR with grammar_order: a single path as in LR
+            let spec = SetSpec { glr: true, ms: rng.chance(0.5), lm: rng.chance(0.5), go: Some(true), ..Default::default() };
+            run_case(&g, &spec, &wd, &mut rep, &inputs);
+            continue;
+        }
         let g = gen_lex(&mut rng);
         let alpha = alphabet(&g);
         let inputs = all_inputs(&alpha, maxlen);
